@@ -61,7 +61,10 @@ LEVEL_TEXT = ('Machine-checked theorems over every trace (unbounded threads and 
               'program). The resolution orders are a fixed oracle of every theorem: a regenerated fact says nothing in src/pyramid '
               'rewrites __bases__/__sro__ or a class specification, and a rewrite under a warm cache is refuted by a concrete '
               'history. A re-initialisation interleaved with a lookup (outside the quantifier) is refuted for the order of '
-              'Registry.__init__ -- the reason histories re-initialise in idle states. _call_view is translated and proved equal to its reference '
+              'Registry.__init__ -- the reason histories re-initialise in idle states -- and proved safe for every init program that '
+              'clears the cache last (any split point, any trace running there, operations not straddling a step). '
+              'Re-initialisation followed by a commit that fails midway: later lookups see exactly the executed actions on an '
+              'empty registry. _call_view is translated and proved equal to its reference '
               'model (first candidate that does not raise PredicateMismatch answers). '
               'The theorems are for a cache key that contains the view classifier (regenerated fact cache_key_mode); for the key '
               '(request_iface, context_iface, view_name) freshness is refuted by a concrete history and proved only for histories '
